@@ -609,15 +609,35 @@ func runC19(c c19Case, st *stats.Collector) *failure {
 		_ = res
 		return nil
 	}
-	res, status, f := wb.do(c.Batch)
-	if f != nil {
-		return f
-	}
-	if status != stepDone || res.Err != "" {
-		return nil
-	}
-	if len(res.Unprocessed) != 0 {
-		return nil
+	dup := batchHasDuplicateKey(ws.m, c.Batch)
+	if dup {
+		// DynamoDB rejects a batch that names one key twice. An implementation
+		// that accepts it is held to the statement as written: the tables end up
+		// as after the individual requests, in the order given. The model does
+		// not follow the batch world here.
+		b := c.Batch
+		b.Blind = true
+		r, _, f := wb.do(b)
+		if f != nil {
+			return f
+		}
+		if r.Err != "" || len(r.Unprocessed) != 0 {
+			return nil
+		}
+		if st != nil {
+			st.Class("accepted-batch-naming-one-key-twice")
+		}
+	} else {
+		res, status, f := wb.do(c.Batch)
+		if f != nil {
+			return f
+		}
+		if status != stepDone || res.Err != "" {
+			return nil
+		}
+		if len(res.Unprocessed) != 0 {
+			return nil
+		}
 	}
 	for _, tb := range c.Batch.Batch {
 		for _, r := range tb.Reqs {
@@ -637,10 +657,38 @@ func runC19(c c19Case, st *stats.Collector) *failure {
 			return newFail("batch differs from its decomposition", "%s:\n--- after the batch\n%s--- after the individual calls\n%s", wb.ds[i].Name(), a, b)
 		}
 	}
-	if f := wb.check(); f != nil {
-		return f
+	if !dup {
+		if f := wb.check(); f != nil {
+			return f
+		}
 	}
 	return ws.check()
+}
+
+// batchHasDuplicateKey reports whether a BatchWrite names one key of one table twice.
+func batchHasDuplicateKey(db *model.DB, op model.Op) bool {
+	seen := map[string]bool{}
+	for _, tb := range op.Batch {
+		t := db.Tables[tb.Table]
+		if t == nil {
+			continue
+		}
+		for _, r := range tb.Reqs {
+			it := r.Put
+			if it == nil {
+				it = r.Delete
+			}
+			k, ok := t.KeyOf(it)
+			if !ok {
+				continue
+			}
+			if seen[tb.Table+"\x00"+k] {
+				return true
+			}
+			seen[tb.Table+"\x00"+k] = true
+		}
+	}
+	return false
 }
 
 func init() {
@@ -653,7 +701,7 @@ func init() {
 	}
 }
 
-const ruleC19 = "rapid: a state built by a short write history on 1-3 tables (0-2 indexes each), then one BatchWriteItem (1-25 requests, mixed puts and deletes, several tables, keys present and absent, no key twice; batches above 20 requests generated with fixed weight) or one BatchGetItem (1-15 present and absent keys per table, several tables, sometimes filled up to 60 / 99 / exactly 100 keys, the service limit). Oracle: twin-client differential - one pair of clients executes the batch, a second pair the same requests as individual PutItem / DeleteItem calls; the canonical internal dumps (tables and every index) must be equal, the reference model agrees with both, UnprocessedItems is empty; BatchGetItem responses equal, per table, the multiset of individual GetItem results for keys that exist, and (unless the open finding F-BGUNPROC applies) absent keys are not reported as unprocessed. Non-trivial = batch over >= 2 tables, or with a delete of a present key, or a BatchGet with an absent key; distinct = hash of (setup, batch)."
+const ruleC19 = "rapid: a state built by a short write history on 1-3 tables (0-2 indexes each), then one BatchWriteItem (1-25 requests, mixed puts and deletes, several tables, keys present and absent; batches above 20 requests generated with fixed weight; in a fifth of the cases a key may be named twice - DynamoDB rejects those, an implementation that accepts one is compared with the individual requests in the order given) or one BatchGetItem (1-15 present and absent keys per table, several tables, sometimes filled up to 60 / 99 / exactly 100 keys, the service limit). In a third of the cases the same request object is sent twice (the retry a caller performs; puts and deletes are idempotent) and the second response is the one compared. Oracle: twin-client differential - one pair of clients executes the batch, a second pair the same requests as individual PutItem / DeleteItem calls; the canonical internal dumps (tables and every index) must be equal, the reference model agrees with both, UnprocessedItems is empty; BatchGetItem responses equal, per table, the multiset of individual GetItem results for keys that exist, and (unless the open finding F-BGUNPROC applies) absent keys are not reported as unprocessed. Non-trivial = batch over >= 2 tables, or with a delete of a present key, or a BatchGet with an absent key; distinct = hash of (setup, batch)."
 
 // TestC19 decides property C19.
 func TestC19(t *testing.T) {
@@ -727,13 +775,18 @@ func TestC19(t *testing.T) {
 				absentGet = true
 			}
 			multiTable = len(op.Batch) >= 2
+			op.Consistent = rapid.Bool().Draw(rt, "consistentRead")
 			c.Batch = op
 		} else {
 			op := model.Op{Kind: "BatchWrite"}
-			total := rapid.SampledFrom([]int{1, 2, 3, 5, 8, 12, 20, 21, 22, 24, 25}).Draw(rt, "batchTotal")
+			total := rapid.SampledFrom([]int{1, 2, 3, 5, 8, 12, 13, 16, 20, 21, 22, 24, 25}).Draw(rt, "batchTotal")
 			left := total
+			// a fifth of the batches may name a key more than once (DynamoDB
+			// rejects those; an implementation that accepts them must apply the
+			// requests in the order given)
+			dups := rapid.IntRange(0, 4).Draw(rt, "allowDuplicateKeys") == 0
 			// large batches mostly go to one table: truncation defects only show there
-			concentrate := total > 12 && rapid.IntRange(0, 3).Draw(rt, "concentrate") > 0
+			concentrate := !dups && total > 12 && rapid.IntRange(0, 3).Draw(rt, "concentrate") > 0
 			for gi, g := range gens {
 				if left <= 0 {
 					break
@@ -763,7 +816,7 @@ func TestC19(t *testing.T) {
 						k[a] = it[a]
 					}
 					ck := model.CanonItem(k)
-					if seen[ck] {
+					if seen[ck] && !dups {
 						continue
 					}
 					seen[ck] = true
@@ -793,7 +846,11 @@ func TestC19(t *testing.T) {
 			}
 			return
 		}
+		c.Batch.Repeat = rapid.IntRange(0, 2).Draw(rt, "sameRequestObjectTwice") == 0
 		pending("C19", "c19", c)
+		if c.Batch.Repeat {
+			st.Class("same-request-object-sent-twice")
+		}
 		n := 0
 		for _, tb := range c.Batch.Batch {
 			n += len(tb.Reqs) + len(tb.Keys)
